@@ -5,6 +5,7 @@ from __future__ import annotations
 from inspect import isawaitable
 from typing import TYPE_CHECKING, Any
 
+from hypergraph.nodes._rename import build_reverse_rename_map
 from hypergraph.nodes.base import _EMIT_SENTINEL
 from hypergraph.runners._shared.types import PauseExecution, PauseInfo
 
@@ -78,6 +79,12 @@ def _normalize_response(
     if not data_outputs:
         return {}
     if len(data_outputs) > 1 and isinstance(response, dict):
+        # The handler is written against the declared output names; follow
+        # with_outputs() renames like every other node does
+        reverse_map = build_reverse_rename_map(node._rename_history, "outputs")
+        if reverse_map:
+            forward_map = {orig: cur for cur, orig in reverse_map.items() if cur in data_outputs}
+            response = {forward_map.get(key, key): value for key, value in response.items()}
         expected_keys = set(data_outputs)
         actual_keys = set(response.keys())
         if actual_keys != expected_keys:
